@@ -937,14 +937,19 @@ peg::parser! {
             legacy_arithmetic_expansion() /
             command_substitution() /
             parameter_expansion() /
+            heredoc_line_continuation() /
             heredoc_escape_sequence() /
             heredoc_literal_text()
+
+        // A backslash-newline pair in an expanding here-document joins the two lines.
+        rule heredoc_line_continuation() -> WordPiece =
+            "\\\n" { WordPiece::Text(String::new()) }
 
         rule heredoc_escape_sequence() -> WordPiece =
             s:$("\\" ['$' | '`' | '\\']) { WordPiece::EscapeSequence(s.to_owned()) }
 
         rule heredoc_literal_text() -> WordPiece =
-            s:$((!heredoc_escape_sequence() !dollar_sign_word_piece() [^'`'])+) {
+            s:$((!heredoc_line_continuation() !heredoc_escape_sequence() !dollar_sign_word_piece() [^'`'])+) {
                 WordPiece::Text(s.to_owned())
             }
 
